@@ -5,6 +5,7 @@ straight afterwards. Usage: run_mutants.py [ids...] [--also C01,C04] [--tier qui
 import json, os, subprocess, sys, glob, re, time
 
 VERIF = os.path.dirname(os.path.dirname(os.path.abspath(__file__)))
+REPO = os.environ.get("REPO_DIR", "/repo")
 SEEDED = os.path.join(VERIF, "seeded")
 
 
@@ -17,7 +18,7 @@ def main():
             also = a.split("=")[1].split(",")
         if a.startswith("--tier="):
             tier = a.split("=")[1]
-    st = subprocess.run(["git", "-C", "/repo", "status", "--porcelain", "--untracked-files=no"], stdout=subprocess.PIPE, text=True).stdout.strip()
+    st = subprocess.run(["git", "-C", REPO, "status", "--porcelain", "--untracked-files=no"], stdout=subprocess.PIPE, text=True).stdout.strip()
     if st:
         print("refusing: /repo has uncommitted changes:\n" + st)
         return 2
@@ -28,7 +29,7 @@ def main():
         if args and mid not in args and prop not in args:
             continue
         patch = os.path.join(d, "patch.diff")
-        r = subprocess.run(["git", "-C", "/repo", "apply", patch])
+        r = subprocess.run(["git", "-C", REPO, "apply", patch])
         if r.returncode != 0:
             print(mid, "patch does not apply")
             continue
@@ -47,7 +48,7 @@ def main():
                     if os.path.exists(path):
                         os.remove(path)      # replays of seeded runs are not evidence about /repo
         finally:
-            subprocess.run(["git", "-C", "/repo", "checkout", "--", "."])
+            subprocess.run(["git", "-C", REPO, "checkout", "--", "."])
         summary[mid] = det
         meta_p = os.path.join(d, "meta.json")
         meta = json.load(open(meta_p)) if os.path.exists(meta_p) else {"id": mid, "breaks_property": prop}
